@@ -51,6 +51,7 @@ UNIT = dict(
   consts=[dict(name='indexes_per_cacheline', file=S, regex=r'static constexpr std::size_t indexes_per_cacheline = ([^;]+);',
                subst=[(r'cacheline_size / sizeof\(index_t\)', '64 / sizeof(uint64_t)')]),
           dict(name='remap_shift', file=Q, regex=r'static constexpr unsigned remap_shift = ([^;]+);', subst=[(r'detail::nikolaev_scq::', '')])],
+  ctypes={'value_type': 'T'},      # for helpers that are followed automatically
   sources=[
     dict(id='is_power_of_two', file=U, sig=r'constexpr bool is_power_of_two\(T val\)', c_sig='static _Bool is_power_of_two(uint64_t val)', must_fire={}),
     dict(id='find_last_bit_set', file=U, sig=r'constexpr unsigned find_last_bit_set\(T val\)', c_sig='static unsigned find_last_bit_set(uint64_t val)', must_fire={}),
